@@ -118,7 +118,7 @@ def run(pid, tier):
     samples = []
 
     # ---- leg A: the model itself, HEAD switches and atomic switches
-    consts = {"interval": 4, "maxreorg": 2, "trusted": ["o1", "o2"], "nl": 1 if quick else 2, "h0": 2,
+    consts = {"interval": 4, "maxreorg": 2, "trusted": ["o1", "o2"], "nl": 1, "h0": 2,
               "hmax": 5 if quick else 6, "maxdev": 1 if quick else 2}
     a_head = trk.leg_a("head", consts, ["C13a", "TypeOK"], trk.SWITCHES["popFirst"], trk.SWITCHES["keepDecode"])
     a_head2 = trk.leg_a("head-atomicity", consts, ["C13b", "C13c", "WindowLinked"], trk.SWITCHES["popFirst"],
@@ -131,6 +131,12 @@ def run(pid, tier):
     cov["legs"]["A_model_atomic_switches"] = {"states": a_fix["states"], "distinct": a_fix["distinct"],
                                               "depth": a_fix["depth"], "violated": a_fix["violated"],
                                               "wall_s": round(a_fix["wall_s"], 1)}
+    if not quick:
+        c2 = dict(consts, nl=2, maxdev=1, hmax=5, trusted=["o1", "o2", "o3"])
+        a2 = trk.leg_a("atomic-2ch", c2, INVS + ["TypeOK", "WindowLinked"], False, False)
+        cov["legs"]["A_model_atomic_switches_two_listeners"] = {
+            "constants": c2, "states": a2["states"], "distinct": a2["distinct"], "depth": a2["depth"],
+            "violated": a2["violated"], "wall_s": round(a2["wall_s"], 1)}
     if a_head["violated"] or a_head2["violated"]:
         log("[C13] leg A: the MODEL with the switches of HEAD violates %s (hypothesis about the code)" % (
             a_head["violated"] + a_head2["violated"]))
